@@ -8,3 +8,4 @@ From Agdb Require Export Records Storage StorageSpec.
 (* loaded last: the extraction renames clashing names of LATER libraries, the drivers of the earlier ones keep theirs;
    m_conc.ml / m_derive.ml use only the uniquely named entry points *)
 From Agdb Require Export ConcRead DeriveType.
+From Agdb Require Export Auth Paths.
